@@ -66,6 +66,13 @@ def coq_stage(pid, tier):
         res["broken"] = "forbidden construct(s): " + "; ".join(bad[:5])
         res["log"] = res["broken"]
         return res
+    # translator: regenerate coq/Generated/ExprTable.v from /repo's current source
+    rc, out = sh([sys.executable, os.path.join(ROOT, "tools", "gen_exprtable.py")], 120)
+    if rc != 0:
+        res["broken"] = ("translator tools/gen_exprtable.py: the expression rule of the generated parser no longer has "
+                         "the shape the translator reads: " + out.strip()[-400:])
+        res["log"] = out[-2000:]
+        return res
     rc, out = sh(["make", "-s", "coq-target", "T=Props/%s.vo" % pid], 3000)
     res["log"] = out[-4000:]
     if rc != 0:
